@@ -86,6 +86,7 @@ impl Track {
 		for effect in &mut self.effects {
 			effect.on_change_sample_rate(sample_rate);
 		}
+		self.sub_tracks.remove_and_add(|_| false);
 		for (_, sub_track) in &mut self.sub_tracks {
 			sub_track.on_change_sample_rate(sample_rate);
 		}
